@@ -78,6 +78,9 @@ pub trait OpDriver: Send + Sync {
     fn call<'a>(&'a self, s3: &'a dyn S3, alts: &'a [usize]) -> BoxFuture<'a, Result<AnyBox, S3Error>>;
     /// members of the recorded backend input that differ from the generated one ("body" = stream bytes)
     fn diff_input<'a>(&'a self, alts: &'a [usize], recorded: &'a BackendCall) -> BoxFuture<'a, Result<Vec<String>, String>>;
+    /// members that do not survive s3s-aws's conversion layer: try_from_aws(try_into_aws(x)) vs x (Err = conversion refused)
+    fn conv_roundtrip_input<'a>(&'a self, alts: &'a [usize]) -> BoxFuture<'a, Result<Vec<String>, String>>;
+    fn conv_roundtrip_output<'a>(&'a self, alts: &'a [usize]) -> BoxFuture<'a, Result<Vec<String>, String>>;
     /// Debug rendering of an S3Request for this operation that carries credentials
     fn request_debug_with_credentials(&self, access_key: &str, secret: &str) -> String;
     /// the typed result a scripted backend should return
@@ -88,9 +91,37 @@ pub trait OpDriver: Send + Sync {
 
 impl<I, O> OpDriver for Driver<I, O>
 where
-    I: Gen + FieldDiff + crate::svc::TakeBody + std::fmt::Debug + Send + Sync,
-    O: Gen + FieldDiff + TakeOutBody + std::fmt::Debug + Send + Sync,
+    I: Gen + FieldDiff + crate::svc::TakeBody + std::fmt::Debug + Send + Sync + s3s_aws::conv::AwsConversion<Error = S3Error>,
+    O: Gen + FieldDiff + TakeOutBody + std::fmt::Debug + Send + Sync + s3s_aws::conv::AwsConversion<Error = S3Error>,
+    <I as s3s_aws::conv::AwsConversion>::Target: Send,
+    <O as s3s_aws::conv::AwsConversion>::Target: Send,
 {
+    fn conv_roundtrip_input<'a>(&'a self, alts: &'a [usize]) -> BoxFuture<'a, Result<Vec<String>, String>> {
+        Box::pin(async move {
+            let x = self.input(alts);
+            let aws = I::try_into_aws(x).map_err(|e| format!("try_into_aws: {}", e.code().as_str()))?;
+            let mut back = I::try_from_aws(aws).map_err(|e| format!("try_from_aws: {}", e.code().as_str()))?;
+            let mut want = self.input(alts);
+            let mut d: Vec<String> = want.field_diff(&back).into_iter().map(str::to_owned).collect();
+            if drain_blob(want.take_body()).await? != drain_blob(back.take_body()).await? {
+                d.push("body".into());
+            }
+            Ok(d)
+        })
+    }
+    fn conv_roundtrip_output<'a>(&'a self, alts: &'a [usize]) -> BoxFuture<'a, Result<Vec<String>, String>> {
+        Box::pin(async move {
+            let x = self.output(alts);
+            let aws = O::try_into_aws(x).map_err(|e| format!("try_into_aws: {}", e.code().as_str()))?;
+            let mut back = O::try_from_aws(aws).map_err(|e| format!("try_from_aws: {}", e.code().as_str()))?;
+            let mut want = self.output(alts);
+            let mut d: Vec<String> = want.field_diff(&back).into_iter().map(str::to_owned).collect();
+            if drain_blob(want.take_out_body()).await? != drain_blob(back.take_out_body()).await? {
+                d.push("body".into());
+            }
+            Ok(d)
+        })
+    }
     fn name(&self) -> &'static str {
         self.name
     }
